@@ -540,3 +540,222 @@ Proof.
   pose proof (subtrees_forest_bfs _ _ _ H) as P. cbn [flat_map] in P. rewrite app_nil_r in P.
   rewrite (Permutation_length P), <- (nodes_bfs_ids _ _ _ H). apply Permutation_map. exact P.
 Qed.
+
+(* ====================================================================== *)
+(* The id walk of initLevels computes [levels]                             *)
+(* ====================================================================== *)
+
+Lemma perm_filter_length {A} (f : A -> bool) l l' :
+  Permutation l l' -> length (filter f l) = length (filter f l').
+Proof.
+  induction 1 as [|x l l' _ IH|x y l|l l' l'' _ IH1 _ IH2]; cbn [filter].
+  - reflexivity.
+  - destruct (f x); cbn [length]; rewrite IH; reflexivity.
+  - destruct (f x), (f y); reflexivity.
+  - rewrite IH1. exact IH2.
+Qed.
+
+Lemma count_perm l l' : Permutation l l' -> count_inner l = count_inner l' /\ count_leaf l = count_leaf l'.
+Proof. intros H. unfold count_inner, count_leaf. split; apply perm_filter_length; exact H. Qed.
+
+Lemma rank_inner_split P Q base :
+  (forall t, In t P -> tree_id t < base) -> (forall t, In t Q -> base <= tree_id t) ->
+  rank_inner (P ++ Q) base = count_inner P.
+Proof.
+  intros HP HQ. unfold rank_inner, count_inner. rewrite filter_app, app_length.
+  rewrite (filter_ext_in (fun t => is_inner t && (tree_id t <? base)) is_inner P).
+  2:{ intros t Ht. specialize (HP t Ht). destruct (Nat.ltb_spec (tree_id t) base); [apply andb_true_r|lia]. }
+  rewrite (filter_all_false _ Q); [cbn; lia|].
+  rewrite Forall_forall. intros t Ht. specialize (HQ t Ht).
+  destruct (Nat.ltb_spec (tree_id t) base); [lia|apply andb_false_r].
+Qed.
+
+(* candidates of next_inner *)
+Definition cand (cur : nat) (t : tree) : bool := is_inner t && (cur <=? tree_id t).
+
+Lemma next_inner_spec : forall nodes cur best,
+  match next_inner nodes cur best with
+  | None => best = None /\ forall t, In t nodes -> cand cur t = false
+  | Some (i, f) =>
+      (best = Some (i, f) \/ exists t, In t nodes /\ cand cur t = true /\ tree_id t = i /\ first_child t = f) /\
+      (forall t, In t nodes -> cand cur t = true -> i <= tree_id t) /\
+      match best with Some (bi, _) => i <= bi | None => True end
+  end.
+Proof.
+  induction nodes as [|t r IH]; intros cur best.
+  - cbn [next_inner]. destruct best as [[bi bf]|]; [|split; [reflexivity|intros ? []]].
+    split; [left; reflexivity|]. split; [intros ? []|lia].
+  - cbn [next_inner]. fold (cand cur t).
+    destruct (cand cur t) eqn:Ec.
+    + (* t is a candidate *)
+      set (best' := match best with
+                    | Some (bid, _) => if tree_id t <? bid then Some (tree_id t, first_child t) else best
+                    | None => Some (tree_id t, first_child t)
+                    end).
+      specialize (IH cur best').
+      destruct (next_inner r cur best') as [[i f]|] eqn:En.
+      * destruct IH as (H1 & H2 & H3).
+        assert (i <= tree_id t /\ match best with Some (bi, _) => i <= bi | None => True end) as [Ht Hb].
+        { unfold best' in H3. destruct best as [[bi bf]|]; [|split; [exact H3|exact I]].
+          destruct (Nat.ltb_spec (tree_id t) bi); lia. }
+        split; [|split; [|exact Hb]].
+        -- destruct H1 as [H1|(t' & Hin & Hc & Hi & Hf)].
+           ++ unfold best' in H1. destruct best as [[bi bf]|].
+              ** destruct (Nat.ltb_spec (tree_id t) bi).
+                 --- inversion H1; subst. right. exists t. cbn; auto.
+                 --- left. exact H1.
+              ** inversion H1; subst. right. exists t. cbn; auto.
+           ++ right. exists t'. cbn; auto.
+        -- intros t' [<-|Hin] Hc; [exact Ht|apply H2; assumption].
+      * destruct IH as (H1 & _). unfold best' in H1. destruct best as [[bi bf]|]; [|discriminate].
+        destruct (tree_id t <? bi); discriminate.
+    + specialize (IH cur best). destruct (next_inner r cur best) as [[i f]|].
+      * destruct IH as (H1 & H2 & H3). split; [|split; [|exact H3]].
+        -- destruct H1 as [H1|(t' & Hin & Hc & Hi & Hf)]; [left; exact H1|right; exists t'; cbn; auto].
+        -- intros t' [<-|Hin] Hc; [congruence|apply H2; assumption].
+      * destruct IH as (H1 & H2). split; [exact H1|]. intros t' [<-|Hin]; [exact Ec|apply H2; exact Hin].
+Qed.
+
+Lemma seq_sorted : forall n a, StronglySorted lt (List.seq a n).
+Proof.
+  induction n as [|n IH]; intros a; [constructor|]. cbn [List.seq]. constructor; [apply IH|].
+  rewrite Forall_forall. intros x Hx. apply in_seq in Hx. lia.
+Qed.
+
+(* the first-child id of the inner node with the smallest id of a level *)
+Lemma fcs_first : forall F cid,
+  fcs_ok cid F -> StronglySorted lt (map tree_id F) ->
+  forall t, In t F -> is_inner t = true ->
+  (forall t', In t' F -> is_inner t' = true -> tree_id t <= tree_id t') ->
+  first_child t = cid.
+Proof.
+  induction F as [|x F IH]; intros cid Hf Hs t Hin Hi Hmin; [destruct Hin|].
+  cbn [map] in Hs. inversion Hs as [|? ? Hs' Hlt]; subst.
+  destruct x as [id ord tail eidx|id big step pfx fc ch].
+  - destruct Hin as [<-|Hin]; [discriminate|]. cbn [fcs_ok] in Hf.
+    apply (IH cid Hf Hs' t Hin Hi). intros t' Ht'. apply Hmin. right; exact Ht'.
+  - cbn [fcs_ok] in Hf. destruct Hf as [Hfc _].
+    destruct Hin as [<-|Hin]; [exact Hfc|exfalso].
+    assert (tree_id t <= id) as H1 by (apply (Hmin (Inner id big step pfx fc ch)); [left; reflexivity|reflexivity]).
+    rewrite Forall_forall in Hlt. specialize (Hlt (tree_id t) (in_map tree_id _ _ Hin)). cbn [tree_id] in Hlt. lia.
+Qed.
+
+Lemma nodes_bfs_nil : forall n, nodes_bfs n [] = [].
+Proof. induction n as [|n IH]; [reflexivity|]. cbn. exact IH. Qed.
+
+Lemma count_inner_zero_kids F : count_inner F = 0 -> flat_map kids F = [].
+Proof.
+  unfold count_inner. induction F as [|t F IH]; [reflexivity|]. cbn [filter flat_map].
+  destruct t; cbn [is_inner kids]; [intros H; rewrite (IH H); reflexivity|cbn; discriminate].
+Qed.
+
+Lemma count_inner_pos F : count_inner F <> 0 -> exists x, In x F /\ is_inner x = true.
+Proof.
+  unfold count_inner. intros H. destruct (filter is_inner F) as [|x l] eqn:E; [cbn in H; congruence|].
+  exists x. apply (filter_In is_inner). rewrite E. left; reflexivity.
+Qed.
+
+(* per-depth counts of a forest, for at most n depths *)
+Fixpoint fprofile (n : nat) (F : list tree) : list (nat * nat) :=
+  match n with
+  | 0 => []
+  | S n' => match F with
+            | [] => []
+            | _ => (count_inner F, count_leaf F) :: fprofile n' (flat_map kids F)
+            end
+  end.
+
+Lemma fprofile_nil n : fprofile n [] = [].
+Proof. destruct n; reflexivity. Qed.
+
+Lemma walk_levels_ok : forall n base F P nodes ti fuel,
+  bfs_ok n base F -> F <> [] ->
+  Permutation nodes (P ++ nodes_bfs n F) ->
+  (forall t, In t nodes -> is_inner t = true -> kids t <> []) ->
+  (forall t, In t P -> tree_id t < base) ->
+  length P = base ->
+  ti = count_inner nodes ->
+  length nodes <= fuel + base ->
+  exists out, walk_levels fuel nodes ti base = Ok out /\
+    out ++ [(length nodes, ti, length nodes - ti)] =
+    (base, count_inner P, count_leaf P) :: cumul (count_inner P) (count_leaf P) (fprofile n F).
+Proof.
+  induction n as [|n IH]; intros base F P nodes ti fuel HB HF HP HK Hlt HL Hti Hfuel;
+    [cbn in HB; congruence|].
+  destruct HB as (Hids & Hfc & HB').
+  set (F' := flat_map kids F) in *.
+  cbn [nodes_bfs] in HP. fold F' in HP.
+  assert (forall t, In t (F ++ nodes_bfs n F') -> base <= tree_id t) as Hge.
+  { intros t Ht. apply (in_map tree_id) in Ht. rewrite map_app, Hids, (nodes_bfs_ids _ _ _ HB') in Ht.
+    apply in_app_or in Ht. destruct Ht as [Ht|Ht]; apply in_seq in Ht; lia. }
+  assert (rank_inner nodes base = count_inner P) as Hrank.
+  { unfold rank_inner. rewrite (perm_filter_length _ _ _ HP). apply rank_inner_split; assumption. }
+  destruct (count_perm _ _ HP) as [Hci Hcl].
+  destruct (count_app P (F ++ nodes_bfs n F')) as [Hci1 Hcl1].
+  destruct (count_app F (nodes_bfs n F')) as [Hci2 Hcl2].
+  pose proof (Permutation_length HP) as Hlen. rewrite !app_length in Hlen.
+  pose proof (count_total P) as HtP. pose proof (count_total F) as HtF.
+  assert (F <> [] -> 1 <= length F) as HF1 by (destruct F; [congruence|cbn; lia]).
+  specialize (HF1 HF).
+  destruct fuel as [|f].
+  - (* no fuel: only possible when the walk stops here *)
+    exfalso. lia.
+  - cbn [walk_levels]. rewrite Hrank.
+    destruct (Nat.eq_dec (count_inner F) 0) as [Hz|Hnz].
+    + (* bottom level *)
+      assert (F' = []) as HF' by (apply count_inner_zero_kids; exact Hz).
+      rewrite HF', nodes_bfs_nil in *. cbn [app] in *.
+      assert (count_inner (@nil tree) = 0) as Hn0 by reflexivity.
+      assert (count_leaf (@nil tree) = 0) as Hn1 by reflexivity.
+      assert (count_inner P = ti) as E by lia.
+      rewrite E, Nat.eqb_refl. eexists. split; [reflexivity|].
+      cbn [fprofile]. destruct F as [|x F0]; [congruence|].
+      cbn [flat_map] in HF'. fold (flat_map kids (x :: F0)) in HF'.
+      change (flat_map kids (x :: F0)) with (kids x ++ flat_map kids F0). rewrite HF', fprofile_nil.
+      cbn [cumul app]. rewrite <- E. f_equal; [f_equal; [f_equal|]|]; try lia.
+      f_equal. f_equal; [f_equal|]; cbn [length] in *; lia.
+    + (* there is an inner node on this level *)
+      assert (count_inner P <> ti) as Hne by lia.
+      destruct (Nat.eqb_spec (count_inner P) ti) as [|_]; [congruence|].
+      destruct (count_inner_pos F Hnz) as (x & HxF & Hxi).
+      assert (forall t, In t F -> In t nodes) as HFn.
+      { intros t Ht. eapply Permutation_in; [apply Permutation_sym; exact HP|].
+        apply in_or_app; right. apply in_or_app; left. exact Ht. }
+      assert (forall t, In t F -> base <= tree_id t < base + length F) as HFid.
+      { intros t Ht. apply (in_map tree_id) in Ht. rewrite Hids in Ht. apply in_seq in Ht. lia. }
+      pose proof (next_inner_spec nodes base None) as Hsp.
+      destruct (next_inner nodes base None) as [[i fc]|].
+      2:{ exfalso. destruct Hsp as [_ Hsp]. specialize (Hsp x (HFn x HxF)). unfold cand in Hsp.
+          rewrite Hxi in Hsp. destruct (Nat.leb_spec base (tree_id x)); [discriminate|]. specialize (HFid x HxF). lia. }
+      destruct Hsp as ([Hs|(t & Htn & Htc & Hti' & Htf)] & Hmin & _); [discriminate|].
+      unfold cand in Htc. apply andb_true_iff in Htc. destruct Htc as [Hinner Hle]. apply Nat.leb_le in Hle.
+      assert (i <= tree_id x) as Hix.
+      { apply Hmin; [apply HFn; exact HxF|]. unfold cand. rewrite Hxi. cbn.
+        apply Nat.leb_le. specialize (HFid x HxF). lia. }
+      assert (In t F) as HtF'.
+      { pose proof (Permutation_in _ HP Htn) as Hin. apply in_app_or in Hin. destruct Hin as [Hin|Hin].
+        - specialize (Hlt t Hin). lia.
+        - apply in_app_or in Hin. destruct Hin as [Hin|Hin]; [exact Hin|exfalso].
+          apply (in_map tree_id) in Hin. rewrite (nodes_bfs_ids _ _ _ HB') in Hin. apply in_seq in Hin.
+          specialize (HFid x HxF). lia. }
+      assert (fc = base + length F) as Hfcv.
+      { rewrite <- Htf. apply (fcs_first F (base + length F) Hfc); [rewrite Hids; apply seq_sorted|exact HtF'|exact Hinner|].
+        intros t' Ht' Hi'. rewrite Hti'. apply Hmin; [apply HFn; exact Ht'|].
+        unfold cand. rewrite Hi'. cbn. apply Nat.leb_le. specialize (HFid t' Ht'). lia. }
+      subst fc.
+      assert (F' <> []) as HF'ne.
+      { pose proof (HK x (HFn x HxF) Hxi) as Hk. unfold F'. intros E.
+        apply in_split in HxF. destruct HxF as (l1 & l2 & ->). rewrite flat_map_app in E. cbn [flat_map] in E.
+        apply app_eq_nil in E. destruct E as [_ E]. apply app_eq_nil in E. destruct E as [E _]. congruence. }
+      destruct (IH (base + length F) F' (P ++ F) nodes ti f HB' HF'ne) as (out & Hout & Heq).
+      * rewrite <- app_assoc. exact HP.
+      * exact HK.
+      * intros t0 Ht0. apply in_app_or in Ht0. destruct Ht0 as [Ht0|Ht0]; [specialize (Hlt t0 Ht0); lia|specialize (HFid t0 Ht0); lia].
+      * rewrite app_length. lia.
+      * exact Hti.
+      * lia.
+      * rewrite Hout. cbn [bind]. eexists. split; [reflexivity|].
+        cbn [app]. rewrite Heq. destruct (count_app P F) as [Hc1 Hc2]. rewrite Hc1, Hc2.
+        cbn [fprofile]. destruct F as [|x0 F0]; [congruence|]. fold F'. cbn [cumul].
+        f_equal; [f_equal; [f_equal|]; lia|]. f_equal. f_equal; [f_equal|]; lia.
+Qed.
